@@ -243,6 +243,14 @@ PROBES = [
     "(x>0)*(3)**(-2)",
     "min(x,2)**(-1)",
     "max(x,y,z)/min(3,4)",
+    "x<y<z",
+    "x<y>z",
+    "x>=y>=z",
+    "(x<=y<z)*2+1",
+    "z>y>x",
+    "x<z<y",
+    "y<x<=z",
+    "(x!=y<z)+(z<y<x)",
 ]
 
 
@@ -301,8 +309,11 @@ def gen_expr(rng, names, depth):
         return "(%s)%s(%s)" % (a, op, b)
     if u < 0.6:
         return "-(%s)" % a
-    if u < 0.7:
+    if u < 0.66:
         return "(%s)%s(%s)" % (a, ["<", "<=", ">", ">=", "==", "!="][int(rng.integers(0, 6))], b)
+    if u < 0.7:  # a chained comparison (Python: the conjunction of the pairwise comparisons)
+        ops = ["<", "<=", ">", ">=", "==", "!="]
+        return "((%s)%s(%s)%s(%s))" % (a, ops[int(rng.integers(0, 6))], b, ops[int(rng.integers(0, 6))], gen_expr(rng, names, depth - 1))
     f = ["max", "min", "exp", "sqrt", "floor", "cos", "sin", "ln", "sdiv"][int(rng.integers(0, 9))]
     if f in ("max", "min"):
         if rng.random() < 0.3:
@@ -506,6 +517,12 @@ def run_case(case):
                         # inf; there is no finite real-arithmetic value to compare with
                         R.count("evaluations_outside_double_range")
                         continue
+                    if info.get("chain") and mode != "scalar":
+                        # a chained comparison is an implicit `and`: like `and` / `or` / `if-else` it has no elementwise meaning in Python
+                        R.count("chained_comparisons_on_arrays_not_judged")
+                        continue
+                    if info.get("chain"):
+                        R.count("chained_comparisons_evaluated")
                     if info.get("fragile"):
                         # within rounding distance of (but not at) a discontinuity of floor, //, % or a comparison: two correct
                         # floating-point evaluations may differ by a whole jump
